@@ -22,6 +22,8 @@ only = [a.split("=")[1].split(",") for a in args if a.startswith("--only=")]
 tier = ([a.split("=")[1] for a in args if a.startswith("--tier=")] or ["quick"])[0]
 also = [a.split("=")[1].split(",") for a in args if a.startswith("--also=")]
 missed_only = "--missed" in args
+names = [a.split("=")[1].split(",") for a in args if a.startswith("--seeds=")]
+noself = "--noself" in args
 
 jobs = []
 for sd in sorted(p for p in (V / "seeded").iterdir() if p.is_dir()):
@@ -31,9 +33,11 @@ for sd in sorted(p for p in (V / "seeded").iterdir() if p.is_dir()):
         continue
     if only and sd.name.split("-")[1] not in only[0]:
         continue
+    if names and sd.name not in names[0]:
+        continue
     if missed_only and any(c.get("caught") for c in meta.get("checks_run", [])):
         continue
-    chks = [pid] + (also[0] if also else [])
+    chks = ([] if noself else [pid]) + [c for c in (also[0] if also else []) if c != pid]
     if "--all-checks" in args:
         chks = [f"C{i:02d}" for i in range(1, 19) if f"C{i:02d}" != pid]
     for chk in chks:
